@@ -77,6 +77,13 @@ def _unpicklable():
     return lambda: 0
 
 
+def _cyclic():
+    shared = ["s"]
+    v = [1, shared, shared]
+    v.append(v)
+    return v
+
+
 # concrete values for the C serialisers (CrossHair would realise symbolic ones there anyway)
 JSON_VALUES = [
     {"k": [1, -2.5, "é\r\n \x00", None, True], "": {}},
@@ -95,6 +102,7 @@ PICKLE_VALUES = [
     b"",
     [[[[0]]]],
     3 + 4j,
+    _cyclic(),  # a picklable value whose object graph has a cycle (a list that contains itself) and a shared sub-object
 ]
 TEXT_BAD = "ab\ud800"  # no codec of the case split can encode a lone surrogate: write() raises UnicodeEncodeError
 PICKLE_BAD = [[1, _unpicklable()], {"k": NotJson, "f": _unpicklable()}]
@@ -105,19 +113,24 @@ C11_JSON = [[1, "a\r"], {"k": None}, "x"]
 C11_PICKLE = [(1, "a\r\n"), {"k": [b"\x00"]}]
 
 
-def same(a, b):
-    """equal and of the same type, recursively"""
+def same(a, b, _seen=None):
+    """equal and of the same type, recursively (cycle-safe: a pair of containers under comparison is assumed equal when met again)"""
     if a is b:
         return True  # (also avoids comparing a symbolic value with itself element by element)
     if type(a) is not type(b):
         return False
+    if isinstance(a, (list, dict)):
+        _seen = _seen if _seen is not None else set()
+        if (id(a), id(b)) in _seen:
+            return True
+        _seen.add((id(a), id(b)))
     if isinstance(a, (list, tuple)):
-        return len(a) == len(b) and all(same(x, y) for x, y in zip(a, b))
+        return len(a) == len(b) and all(same(x, y, _seen) for x, y in zip(a, b))
     if isinstance(a, dict):
         if len(a) != len(b):
             return False
         for k in a:
-            if k not in b or not same(a[k], b[k]):
+            if k not in b or not same(a[k], b[k], _seen):
                 return False
         return all(any(type(k) is type(k2) and k == k2 for k2 in b) for k in a)
     return a == b
@@ -449,8 +462,8 @@ def _c12_common(value, had_old, old, inacc):
             return ([(m[0], m[1] is None) for m in ms], m2[1] is not None and m1[1] is not None and m2[1] >= m1[1],
                     w, r, w2, r2, sorted(files))
 
-        if norm(obs) != norm(robs):
-            _mismatch("c12", norm(obs), norm(robs))
+        if not same(norm(obs), norm(robs)):  # (same() is cycle-safe: read values may be cyclic object graphs)
+            _mismatch("c12", "model and real file system observations differ", "")
     return good
 
 
